@@ -33,7 +33,7 @@ def gen_case(rng, cid, max_len=3, max_depth=2, allow=None, short_prob=0.0,
             for sp in chain:
                 d = sg.dims_out(sp, *d)
             need = None
-            if any(sp[0] == 'angle' and sp[2] for sp in chain):
+            if cid in _direct.POOL_SINGLE_EPISODE:
                 max_eps = 1
         else:
             chain, d = sg.gen_chain(rng, ns, nu, max_len, max_depth, allow)
@@ -99,9 +99,9 @@ def prefit_history(kp, case):
             alt = case['nu'] - 1 if case['nu'] > 0 else 1
             if case['ns'] + case['nu'] - alt < 1:
                 return False
-            kp.fit_transformers(X, n_inputs=alt, episode_feature=case['ep'])
+            getattr(kp, 'fit_transformers', kp.fit)(X, n_inputs=alt, episode_feature=case['ep'])
         else:
-            kp.fit_transformers(X, n_inputs=case['nu'], episode_feature=not case['ep'])
+            getattr(kp, 'fit_transformers', kp.fit)(X, n_inputs=case['nu'], episode_feature=not case['ep'])
     except Exception:  # noqa
         return False
     # ... and used: every read-only entry point is called once on the earlier fit (anything memoised per
